@@ -24,10 +24,10 @@ variable {F : Type} [NumAlg F]
 
 /-! ## 1. the parser: what a name token becomes -/
 
-/-- the local name `parseNodeTest` records: the name of the token, except that it is dropped when
-the scanner's `name` field reads `*` *after* the token has been consumed (the Go code tests
-`p.r.name == "*"` after `p.next()`; the field persists unless the following token is a name) -/
-def scannedLocal (st st1 : PState) : String := if st1.s.name == "*" then "" else st.s.name
+/-- the local name `parseNodeTest` records: the name of the token, except that the name `*` (the
+scanner's rendering of `pfx:*`) stands for "any local name" and is recorded as the empty name.  It is
+decided on the name token itself, before the token is consumed. -/
+def scannedLocal (st : PState) : String := if st.s.name == "*" then "" else st.s.name
 
 /-- the `AxisInfo` of a name test `pfx:lname` (or `lname`, `pfx = ""`) under the namespace map `ns`;
 `none`: the prefix is not bound.  No binding is ever applied to an unprefixed name. -/
@@ -48,7 +48,7 @@ theorem parseNodeTest_name_spec (cfg : PCfg) (inp : Ast) (axis : String) (mt : N
     (ht : st.s.typ = .name) (hnf : (st.s.canBeFunc && isNodeType st.s) = false)
     (hnext : st.next = .ok st1) :
     parseNodeTest cfg inp axis mt st =
-      match nameInfo cfg.ns axis mt st.s.pfx (scannedLocal st st1) with
+      match nameInfo cfg.ns axis mt st.s.pfx (scannedLocal st) with
       | some a => .ok (.axis a inp, st1)
       | none => .error .prefixUndefined := by
   unfold parseNodeTest nameInfo scannedLocal
@@ -74,7 +74,7 @@ theorem parse_name_noMap (cfg : PCfg) (inp : Ast) (axis : String) (mt : NType) (
     (ht : st.s.typ = .name) (hnf : (st.s.canBeFunc && isNodeType st.s) = false)
     (hnext : st.next = .ok st1) :
     parseNodeTest cfg inp axis mt st =
-      .ok (.axis ⟨axis, mt, st.s.pfx, scannedLocal st st1, "", false, ""⟩ inp, st1) := by
+      .ok (.axis ⟨axis, mt, st.s.pfx, scannedLocal st, "", false, ""⟩ inp, st1) := by
   rw [parseNodeTest_name_spec cfg inp axis mt st st1 ht hnf hnext, hns]
   unfold nameInfo
   by_cases hp : st.s.pfx = ""
@@ -87,7 +87,7 @@ theorem parse_name_bound (cfg : PCfg) (m : List (String × String)) (uri : Strin
     (ht : st.s.typ = .name) (hnf : (st.s.canBeFunc && isNodeType st.s) = false)
     (hp : st.s.pfx ≠ "") (hl : m.lookup st.s.pfx = some uri) (hnext : st.next = .ok st1) :
     parseNodeTest cfg inp axis mt st =
-      .ok (.axis ⟨axis, mt, st.s.pfx, scannedLocal st st1, "", true, uri⟩ inp, st1) := by
+      .ok (.axis ⟨axis, mt, st.s.pfx, scannedLocal st, "", true, uri⟩ inp, st1) := by
   rw [parseNodeTest_name_spec cfg inp axis mt st st1 ht hnf hnext, hns]
   simp [nameInfo, hp, hl]
 
@@ -97,7 +97,7 @@ theorem parse_name_unprefixed (cfg : PCfg) (inp : Ast) (axis : String) (mt : NTy
     (ht : st.s.typ = .name) (hnf : (st.s.canBeFunc && isNodeType st.s) = false)
     (hp : st.s.pfx = "") (hnext : st.next = .ok st1) :
     parseNodeTest cfg inp axis mt st =
-      .ok (.axis ⟨axis, mt, "", scannedLocal st st1, "", false, ""⟩ inp, st1) := by
+      .ok (.axis ⟨axis, mt, "", scannedLocal st, "", false, ""⟩ inp, st1) := by
   rw [parseNodeTest_name_spec cfg inp axis mt st st1 ht hnf hnext]
   simp [nameInfo, hp]
 
@@ -110,17 +110,16 @@ theorem parse_name_unbound (cfg : PCfg) (m : List (String × String)) (inp : Ast
   rw [parseNodeTest_name_spec cfg inp axis mt st st1 ht hnf hnext, hns]
   simp [nameInfo, hp, hl]
 
-/-- `pfx:local` / `local`: when the scanner's `name` field still holds the token's name after the
-token is consumed (it does unless the following token is itself a name) and that name is not `*`,
-the recorded local name is the scanned one -/
-theorem scannedLocal_name (st st1 : PState) (hkeep : st1.s.name = st.s.name) (hne : st.s.name ≠ "*") :
-    scannedLocal st st1 = st.s.name := by
-  simp [scannedLocal, hkeep, hne]
+/-- `pfx:local` / `local`: when the token's name is not `*`, the recorded local name is the scanned
+one (whatever token follows) -/
+theorem scannedLocal_name (st : PState) (hne : st.s.name ≠ "*") :
+    scannedLocal st = st.s.name := by
+  simp [scannedLocal, hne]
 
 /-- `pfx:*`: the scanner delivers the name `*`; the recorded local name is empty -/
-theorem scannedLocal_star (st st1 : PState) (hkeep : st1.s.name = st.s.name) (he : st.s.name = "*") :
-    scannedLocal st st1 = "" := by
-  simp [scannedLocal, hkeep, he]
+theorem scannedLocal_star (st : PState) (he : st.s.name = "*") :
+    scannedLocal st = "" := by
+  simp [scannedLocal, he]
 
 /-! ## 2. one step, every axis -/
 
@@ -916,7 +915,7 @@ theorem parse_name_text (ns : Option (List (String × String))) (text : List Cha
     (hinit : Scan.init text = .ok s) (ht : s.typ = .name) (hcf : s.canBeFunc = false)
     (hnext : s.nextItem = .ok s1) (he : s1.typ = .eof) :
     parse (fuelFor text) (defaultCfg ns) text =
-      match nameInfo ns "child" .elem s.pfx (if s1.name == "*" then "" else s.name) with
+      match nameInfo ns "child" .elem s.pfx (if s.name == "*" then "" else s.name) with
       | some a => .ok (.axis a .none)
       | none => .error (.prefixUndefined) := by
   have hnx : (⟨s, 1⟩ : PState).next = .ok ⟨s1, 1⟩ := by simp [PState.next, hnext]
@@ -932,11 +931,11 @@ theorem parse_name_text (ns : Option (List (String × String))) (text : List Cha
     (fun f => parseStep_name f _ .none ⟨s, 1⟩ ht hR) hR
     (by simp [isPrimaryExpr, ht, hcf]) (by rw [ht]; decide) (by rw [ht]; decide) (by rw [ht]; decide)
     (fuelFor text) (fuelFor_ge text), hspec]
-  show resAst (match nameInfo ns "child" .elem s.pfx (scannedLocal ⟨s, 1⟩ ⟨s1, 1⟩) with
+  show resAst (match nameInfo ns "child" .elem s.pfx (scannedLocal ⟨s, 1⟩) with
       | some a => (Except.ok (Ast.axis a .none, (⟨s1, 1⟩ : PState)) : PRes)
       | none => .error .prefixUndefined) = _
   unfold scannedLocal
-  cases nameInfo ns "child" .elem s.pfx (if s1.name == "*" then "" else s.name) <;> rfl
+  cases nameInfo ns "child" .elem s.pfx (if s.name == "*" then "" else s.name) <;> rfl
 
 /-- **unbound prefix, top level**: `CompileWithNS(text, m)` on a one-step text `pfx:name` whose
 prefix `m` does not bind is the compile error "prefix undefined" -/
@@ -967,9 +966,9 @@ theorem parseNodeTest_name_res (cfg : PCfg) (inp : Ast) (axis : String) (mt : NT
     (ht : st.s.typ = .name) (hnf : (st.s.canBeFunc && isNodeType st.s) = false)
     (hnext : st.next = .ok st1) :
     parseNodeTest cfg inp axis mt st =
-      nameRes (nameInfo cfg.ns axis mt st.s.pfx (scannedLocal st st1)) inp st1 := by
+      nameRes (nameInfo cfg.ns axis mt st.s.pfx (scannedLocal st)) inp st1 := by
   rw [parseNodeTest_name_spec cfg inp axis mt st st1 ht hnf hnext]
-  generalize nameInfo cfg.ns axis mt st.s.pfx (scannedLocal st st1) = o
+  generalize nameInfo cfg.ns axis mt st.s.pfx (scannedLocal st) = o
   cases o <;> rfl
 
 theorem nameRes_final (o : Option AxisInfo) (inp : Ast) (st : PState) (h : st.s.typ = .eof) :
@@ -998,7 +997,7 @@ theorem parse_attr_text (ns : Option (List (String × String))) (text : List Cha
     (ht1 : s1.typ = .name) (hnf : (s1.canBeFunc && isNodeType s1) = false)
     (hn2 : s1.nextItem = .ok s2) (he : s2.typ = .eof) :
     parse (fuelFor text) (defaultCfg ns) text =
-      nameAst (nameInfo ns "attribute" .attr s1.pfx (if s2.name == "*" then "" else s1.name)) := by
+      nameAst (nameInfo ns "attribute" .attr s1.pfx (if s1.name == "*" then "" else s1.name)) := by
   have hspec := parseNodeTest_name_res (defaultCfg ns) .none "attribute" .attr ⟨s1, 1⟩ ⟨s2, 1⟩ ht1 hnf
     (pstate_next s1 s2 1 hn2)
   have hR : Final (parseNodeTest (defaultCfg ns) .none "attribute" .attr ⟨s1, 1⟩) := by
@@ -1017,7 +1016,7 @@ theorem parse_axis_text (ns : Option (List (String × String))) (text : List Cha
     (hn2 : s1.nextItem = .ok s2) (he : s2.typ = .eof) :
     parse (fuelFor text) (defaultCfg ns) text =
       nameAst (nameInfo ns s.name (if s.name == "attribute" then .attr else .elem) s1.pfx
-        (if s2.name == "*" then "" else s1.name)) := by
+        (if s1.name == "*" then "" else s1.name)) := by
   have hspec := parseNodeTest_name_res (defaultCfg ns) .none s.name
     (if s.name == "attribute" then .attr else .elem) ⟨s1, 1⟩ ⟨s2, 1⟩ ht1 hnf (pstate_next s1 s2 1 hn2)
   have hR : Final (parseNodeTest (defaultCfg ns) .none s.name
@@ -1029,10 +1028,11 @@ theorem parse_axis_text (ns : Option (List (String × String))) (text : List Cha
     (fuelFor text) (fuelFor_ge text), hspec, resAst_nameRes]
   rfl
 
-/-! ### the three spellings, with the scanner's persistent `name` field resolved
+/-! ### the three spellings, with the recorded local name as `localOf`
 
-`Lemmas.ScanKeep.nextItem_eof_keep`: the token that follows is the end of input, so the `name` the
-Go code re-reads after `p.next()` is still the name of the token itself. -/
+The local name is decided on the name token itself (`scannedLocal`), so nothing about the token that
+follows is needed (`Lemmas.ScanKeep.nextItem_keep`/`nextItem_eof_keep` still hold for the scanner but
+are no longer used here). -/
 
 /-- the local name recorded for a scanned name: `*` (from `pfx:*`) becomes the empty name -/
 def localOf (n : String) : String := if n == "*" then "" else n
@@ -1042,7 +1042,6 @@ theorem parse_name_text' (ns : Option (List (String × String))) (text : List Ch
     (hnext : s.nextItem = .ok s1) (he : s1.typ = .eof) :
     parse (fuelFor text) (defaultCfg ns) text = nameAst (nameInfo ns "child" .elem s.pfx (localOf s.name)) := by
   have h := parse_name_text ns text s s1 hinit ht hcf hnext he
-  rw [(Lemmas.ScanKeep.nextItem_eof_keep s s1 hnext he).1] at h
   rw [h]; unfold nameAst localOf
   cases nameInfo ns "child" .elem s.pfx (if s.name == "*" then "" else s.name) <;> rfl
 
@@ -1052,9 +1051,7 @@ theorem parse_attr_text' (ns : Option (List (String × String))) (text : List Ch
     (hn2 : s1.nextItem = .ok s2) (he : s2.typ = .eof) :
     parse (fuelFor text) (defaultCfg ns) text =
       nameAst (nameInfo ns "attribute" .attr s1.pfx (localOf s1.name)) := by
-  have h := parse_attr_text ns text s s1 s2 hinit ht hn1 ht1 hnf hn2 he
-  rw [(Lemmas.ScanKeep.nextItem_eof_keep s1 s2 hn2 he).1] at h
-  exact h
+  exact parse_attr_text ns text s s1 s2 hinit ht hn1 ht1 hnf hn2 he
 
 theorem parse_axis_text' (ns : Option (List (String × String))) (text : List Char) (s s1 s2 : Scan)
     (hinit : Scan.init text = .ok s) (ht : s.typ = .axe) (hn1 : s.nextItem = .ok s1)
@@ -1063,9 +1060,7 @@ theorem parse_axis_text' (ns : Option (List (String × String))) (text : List Ch
     parse (fuelFor text) (defaultCfg ns) text =
       nameAst (nameInfo ns s.name (if s.name == "attribute" then .attr else .elem) s1.pfx
         (localOf s1.name)) := by
-  have h := parse_axis_text ns text s s1 s2 hinit ht hn1 ht1 hnf hn2 he
-  rw [(Lemmas.ScanKeep.nextItem_eof_keep s1 s2 hn2 he).1] at h
-  exact h
+  exact parse_axis_text ns text s s1 s2 hinit ht hn1 ht1 hnf hn2 he
 
 /-! ### from the parse tree of one step to the compiled plan -/
 
